@@ -423,7 +423,56 @@ func Generate(r *gen.R, p Params) *H {
 			}
 		}
 	}
+	if r.Chance(0.4) {
+		subSecond(h, r)
+	}
 	return h
+}
+
+// subSecond re-expresses a history in milliseconds or nanoseconds and gives every instant a
+// fraction: most edits of the history share one fraction (so "the same instant" and the
+// window edges stay exact), others sit 1 tick before or after it, on the whole second, or
+// anywhere in their second - child and parent edits then fall into one second in both orders,
+// one tick apart, or exactly together. Version order of every child is kept.
+func subSecond(h *H, r *gen.R) {
+	h.TickNs = 1
+	if r.Chance(0.4) {
+		h.TickNs = 1e6
+	}
+	tps := h.TPS()
+	g := r.Int64Range(1, tps-2)
+	conv := func(sec int64) int64 {
+		var f int64
+		switch k := r.Intn(20); {
+		case k < 8:
+			f = g
+		case k < 11:
+			f = g + 1
+		case k < 14:
+			f = g - 1
+		case k < 16:
+			f = 0
+		default:
+			f = r.Int64Range(0, tps-1)
+		}
+		return sec*tps + f
+	}
+	for i := range h.Parents {
+		h.Parents[i].Sec = conv(h.Parents[i].Sec)
+		h.Parents[i].Lag = h.Parents[i].Lag*tps + r.Int64Range(0, tps-1)
+	}
+	for c := range h.Children {
+		vs := h.Children[c].Vers
+		ts := make([]int64, len(vs))
+		for k := range vs {
+			ts[k] = conv(vs[k].Sec)
+			vs[k].Lag = vs[k].Lag*tps + r.Int64Range(0, tps-1)
+		}
+		sort.Slice(ts, func(a, b int) bool { return ts[a] < ts[b] })
+		for k := range vs {
+			vs[k].Sec = ts[k]
+		}
+	}
 }
 
 func usedIn(p PVer, c int) bool {
@@ -552,6 +601,37 @@ func Big(r *gen.R, way bool, regime Regime, shape string, target int) *H {
 	if r.Chance(0.4) { // a second parent version long after every child edit
 		p2 := PVer{Version: 2, Visible: true, Sec: T + 100000000, CS: 56, Refs: append([]Ref(nil), p.Refs[:len(p.Refs)/2+1]...)}
 		h.Parents = append(h.Parents, p2)
+	}
+	return h
+}
+
+// SubSecond returns the enumerated sub-second family: two parent versions at T+0.2s and
+// T+1000.2s, one child whose v2 lies delta ticks from the first parent version and whose v3
+// lies delta ticks from the second one (v1 long before); delta = 0, +-1 tick, and earlier /
+// later inside the same second are the interesting values. sameCS gives v2/v3 the changeset
+// of the parent version next to them.
+func SubSecond(way bool, regime Regime, tickNs, eps, delta int64, sameCS bool) *H {
+	h := &H{Way: way, Regime: regime, Eps: eps, TickNs: tickNs}
+	tps := h.TPS()
+	T := int64(1400000000)
+	if regime == Stamp {
+		T = 1250000000
+	}
+	t1 := T*tps + tps/5
+	t2 := (T+1000)*tps + tps/5
+	cs2, cs3 := int64(60), int64(61)
+	if sameCS {
+		cs2, cs3 = 55, 56
+	}
+	ch := Child{Type: osm.TypeNode, Ref: 11, Vers: []Ver{
+		{Version: 1, Visible: true, Sec: (T - 50000) * tps, CS: 50, Lat: 1.001, Lon: -1.001},
+		{Version: 2, Visible: true, Sec: t1 + delta, CS: cs2, Lat: 1.002, Lon: -1.002},
+		{Version: 3, Visible: true, Sec: t2 + delta, CS: cs3, Lat: 1.003, Lon: -1.003},
+	}}
+	h.Children = []Child{ch}
+	h.Parents = []PVer{
+		{Version: 1, Visible: true, Sec: t1, CS: 55, Refs: []Ref{{Child: 0}}},
+		{Version: 2, Visible: true, Sec: t2, CS: 56, Refs: []Ref{{Child: 0}, {Child: 0}}},
 	}
 	return h
 }
